@@ -139,8 +139,8 @@ MIRI = {"C04", "C06", "C20"}
 
 # scale factors (percent) applied to the sizes of the SAMPLED families, tuned so that a quick
 # check takes roughly 10-25 s of wall clock on 16 cores and a thorough one a few minutes
-QUICK_SCALE = {"C01": 400, "C02": 500, "C03": 2000, "C04": 150, "C05": 2500, "C06": 2500, "C07": 200, "C08": 100, "C09": 400,
-               "C10": 1500, "C11": 800, "C12": 4000, "C13": 4000, "C14": 100, "C15": 800, "C16": 4000, "C17": 2500, "C18": 1000,
+QUICK_SCALE = {"C01": 150, "C02": 500, "C03": 2000, "C04": 150, "C05": 1000, "C06": 2500, "C07": 200, "C08": 100, "C09": 400,
+               "C10": 1500, "C11": 800, "C12": 4000, "C13": 4000, "C14": 100, "C15": 400, "C16": 600, "C17": 1200, "C18": 400,
                "C19": 1500, "C20": 100}
 THOROUGH_SCALE = {"C01": 400, "C02": 300, "C03": 500, "C04": 150, "C05": 800, "C06": 800, "C07": 150, "C08": 100, "C09": 300,
                   "C10": 300, "C11": 300, "C12": 1500, "C13": 1500, "C14": 150, "C15": 300, "C16": 1500, "C17": 800, "C18": 400,
